@@ -26,7 +26,12 @@ def scenarios(tier):
     # the out-of-band path: the target's lock must be held while redo-unlocked rebuilds it without a lock of its own
     L.append((SC.scn("S5-oob-rebuild-vs-second-invocation", w["csum-mid"], ["redo-ifchange top", "redo-ifchange top"],
                      setup=[["ifchange", ["top"]], ["edit", "s", "2"]], visible=VIS), 1 if q else 2))
+    # the user kills a whole invocation (process tree) part-way while a second one wants the same target
+    L.append((SC.scn("S6-tree-kill-vs-second-invocation", w["chain"], ["redo-ifchange top", "redo-ifchange top"],
+                     visible=VIS, kill_roots=["T0"], expect_ok=["T1"]), 1 if q else 2))
     if not q:
+        L.append((SC.scn("S6b-tree-kill-shared-dep", w["shared"], ["redo-ifchange t1", "redo-ifchange t2"],
+                         visible=VIS, kill_roots=["T0"], expect_ok=["T1"]), 2))
         L.append((SC.scn("S1b-three-ifchange-x", w["one"], ["redo-ifchange x", "redo-ifchange x", "redo-ifchange x"], visible=VIS), 2))
         L.append((SC.scn("S2b-rebuild-shared-dep", w["shared"], ["redo-ifchange t1", "redo-ifchange t2"],
                          setup=[["ifchange", ["t1", "t2"]], ["edit", "s", "1"]], visible=VIS), 2))
@@ -39,7 +44,14 @@ def oracle(scn, res):
     # (1) executions of one target's script never overlap
     open_ = {}
     nexec = {}
+    killed = set()
     for idx, (step, lid, kind, detail) in enumerate(ev):
+        if kind == "kill":
+            # every process of that invocation is gone: its executions have ended (without an `end` note)
+            killed.add(detail)
+            for tgt in list(open_):
+                open_[tgt] = [l for l in open_[tgt] if not (l == detail or l.startswith(detail + ".") or l.startswith(detail + "/"))]
+            continue
         if kind != "script":
             continue
         w = detail.split(" ", 1)
@@ -68,12 +80,29 @@ def oracle(scn, res):
             if rec is not None:
                 rl = window[rec][1]
                 ok = any(e[2] == "txn-end" and e[3] == "commit" and e[1] == rl for e in window[rec + 1:])
-            if not ok and j is not None:
+            by_killed = any(ender == k or ender.startswith(k + ".") for k in killed)
+            if not ok and j is not None and not by_killed:
                 out.append(({"kind": "lock-handed-over-before-result-recorded", "scenario": scn["name"], "target": tgt},
                             {"script_end_by": ender, "next_owner": ev[j][1], "recorded": rec is not None}))
-            if not ok and j is None and res["verdict"] == "done":
+            if not ok and j is None and res["verdict"] == "done" and not any(
+                    ender == k or ender.startswith(k + ".") for k in killed):
                 out.append(({"kind": "execution-never-recorded", "scenario": scn["name"], "target": tgt},
                             {"script_end_by": ender, "roots": res["roots"]}))
+    # the surviving invocation must finish its job correctly
+    if res["verdict"] == "done":
+        for n in scn.get("expect_ok", []):
+            if res["roots"].get(n) != 0:
+                out.append(({"kind": "survivor-failed-after-kill", "scenario": scn["name"], "rc": res["roots"].get(n)},
+                            {"stderr": res["stderr"].get(n, "")[-600:], "killed": sorted(killed)}))
+        if scn.get("expect_ok") and all(res["roots"].get(n) == 0 for n in scn["expect_ok"]):
+            from ..refmodel import Model
+            m = Model(scn["world"])
+            for r in scn["roots"]:
+                if r["name"] in scn["expect_ok"]:
+                    for t in r["argv"][1:]:
+                        if res["files"].get(t) != m.evaluate(t):
+                            out.append(({"kind": "survivor-built-wrong-content", "scenario": scn["name"], "target": t},
+                                        {"got": res["files"].get(t), "want": m.evaluate(t), "killed": sorted(killed)}))
     return out
 
 
